@@ -11,6 +11,7 @@ import (
 	"context"
 	"encoding/json"
 	"errors"
+	"flag"
 	"fmt"
 	"regexp"
 	"strconv"
@@ -106,6 +107,7 @@ type Case struct {
 	Kind string    `json:"kind"` // tree | conc
 	X    *X        `json:"x,omitempty"`
 	Conc *ConcCase `json:"conc,omitempty"`
+	Snap *SnapCase `json:"snap,omitempty"`
 }
 
 func (x *X) coq() string {
@@ -1253,18 +1255,31 @@ func corpus() []*X {
 }
 
 func main() {
+	snapFile := flag.String("snap-child", "", "internal: run the snapshot rounds of this file and report on stdout")
+	snapFrom := flag.Int("snap-from", 0, "internal: first configuration to run")
 	run := kit.Start()
+	if *snapFile != "" {
+		snapChild(*snapFile, *snapFrom)
+		return
+	}
 	run.Header = "From FunV Require Import Base.Tac Model.ErrTree Corr.C12_corr.\nLocal Open Scope Z_scope."
 	run.Footer = "Definition M := Eval vm_compute in mismatches cases.\nPrint M."
 	run.CaseType = "case"
-	run.Rule = "tree cases: random finite programs (depth 1-4, fan-out 0-8) of ers.Join / ers.Wrap / ers.Wrapf / errors.Unwrap and ers.Unwrap (inner layers of aggregates, applied repeatedly) / ers.RemoveOk / ers.Append / fmt.Errorf(%w) / errors.Join / user Unwrap()[]error type / Stack.Add / Stack.Push / erc.Collector / ers.ParsePanic (error, string, []error, other) over 6 ers.Error constants (incl. \"\" and ErrRecoveredPanic), 4 pointer errors, 6 typed errors of 3 types, and nils; conc cases: 2-8 goroutines adding 0-39 operands each to one Collector with a concurrent Len/Resolve reader. distinct = distinct program (JSON); non-trivial = program depth >= 2 with at least two non-nil leaves (tree) or at least two constituents added (conc)"
+	run.Rule = "tree cases: random finite programs (depth 1-4, fan-out 0-8) of ers.Join / ers.Wrap / ers.Wrapf / errors.Unwrap and ers.Unwrap (inner layers of aggregates, applied repeatedly) / ers.RemoveOk / ers.Append / fmt.Errorf(%w) / errors.Join / user Unwrap()[]error type / Stack.Add / Stack.Push / erc.Collector / ers.ParsePanic (error, string, []error, other) over 6 ers.Error constants (incl. \"\" and ErrRecoveredPanic), 4 pointer errors, 6 typed errors of 3 types, and nils; conc cases: 2-8 goroutines adding 0-39 operands each to one Collector with a concurrent Len/Resolve reader; snap cases: 1-4 producers adding 6-120 distinct errors each while 2-6 readers loop on Iterator()/Len()/Resolve(), every snapshot checked for prefix consistency against atomic stamps, run in a child process. distinct = distinct program (JSON); non-trivial = program depth >= 2 with at least two non-nil leaves (tree) or at least two constituents added (conc)"
 
 	if run.Replay != "" {
 		var c Case
 		if err := kit.ReadReplayCase(run.Replay, &c); err != nil {
 			panic(err)
 		}
-		if c.Kind == "conc" {
+		if c.Kind == "snap" {
+			sc := *c.Snap
+			if sc.Reps < 400 {
+				sc.Reps = 400
+			}
+			n := runSnapStream(run, c.ID, []SnapCase{sc}, true)
+			fmt.Printf("concurrent snapshot stream: %+v, %d snapshots checked\n", sc, n)
+		} else if c.Kind == "conc" {
 			execConc(run, c, true)
 		} else {
 			execTree(run, c, true)
@@ -1290,5 +1305,11 @@ func main() {
 		execConc(run, Case{ID: id, Kind: "conc", Conc: genConc(r)}, false)
 		id++
 	}
+	ns := run.Pick(60, 600)
+	var snaps []SnapCase
+	for i := 0; i < ns; i++ {
+		snaps = append(snaps, genSnap(run.Rand.Fork(), run.Pick(40, 80)))
+	}
+	run.Extra["snapshots_checked"] = runSnapStream(run, id, snaps, false)
 	run.Finish()
 }
